@@ -482,14 +482,16 @@ Section Sat.
     mem_str k (keys_of tau sns G inv p x) = true ->
     (exists cc dt, x = OL cc dt /\ k = dt /\ is_nonliteral_type k = false /\ k <> c_NONLITERAL_ELEM_TYPE) \/
     (exists n, x = ON n /\ k = elem_type_node n) \/
-    (exists n, x = ON n /\ In k (labels_of tau sns G n) /\ is_shape_type k = true).
+    (exists n, x = ON n /\ In k (labels_of tau sns G n) /\ is_shape_type k = true /\
+               inv && nkind_eqb (nk n) KBnode = false).
   Proof.
     intros Hi Hx Hp Hk. destruct x as [n|cc dt]; cbn in Hk; rewrite Hp in Hk.
     - cbn in Hk. apply orb_true_iff in Hk. destruct Hk as [Hk|Hk].
       + right. left. exists n. split; [reflexivity | apply str_eqb_eq; exact Hk].
       + right. right. exists n. split; [reflexivity|].
         destruct (inv && nkind_eqb (nk n) KBnode); [discriminate Hk|].
-        apply mem_str_In in Hk. split; [exact Hk|]. apply labels_of_In in Hk. eapply (sd_labels _ _ _ SD); exact Hk.
+        apply mem_str_In in Hk. split; [exact Hk|]. split; [|reflexivity].
+        apply labels_of_In in Hk. eapply (sd_labels _ _ _ SD); exact Hk.
     - cbn in Hk. rewrite orb_false_r in Hk. apply str_eqb_eq in Hk. subst k.
       left. exists cc, dt. split; [reflexivity|]. split; [reflexivity|].
       eapply nbr_literal_datatype; eassumption.
@@ -512,7 +514,7 @@ Section Sat.
     - apply str_eqb_eq in Ep. rewrite Ep in Hx, Hk. destruct (tau_value i x inv Hi Hx) as [_ [cn [-> Hn]]].
       cbn in Hk. fold tau in Hk. rewrite str_eqb_refl in Hk. cbn in Hk. rewrite orb_false_r in Hk.
       apply str_eqb_eq in Hk. congruence.
-    - destruct (key_cases inv _ i x _ Hi Hx Ep Hk) as [(cc & dt & _ & _ & _ & Hn) | [(n & _ & E) | (n & _ & _ & Hs)]].
+    - destruct (key_cases inv _ i x _ Hi Hx Ep Hk) as [(cc & dt & _ & _ & _ & Hn) | [(n & _ & E) | (n & _ & _ & Hs & _)]].
       + exact Hn.
       + rewrite E. unfold elem_type_node. destruct (nk n); discriminate.
       + intros E. rewrite E in Hs. discriminate Hs.
@@ -535,12 +537,12 @@ Section Sat.
     destruct Eb as [Eb1 Eb2]. destruct Ei as [Ei1 Ei2]. rewrite Eb1, Eb2 in *. rewrite Ei1, Ei2 in *.
     assert (Hpt : str_eqb p tau = false) by (apply str_eqb_neq; exact Hp).
     assert (K1 : exists n, x1 = ON n /\ nk n = KBnode).
-    { destruct (key_cases inv p i1 x1 _ Hi1 Hx1 Hpt Hk1) as [(cc & dt & _ & _ & Hn & _) | [(n & -> & E) | (n & _ & _ & Hs)]].
+    { destruct (key_cases inv p i1 x1 _ Hi1 Hx1 Hpt Hk1) as [(cc & dt & _ & _ & Hn & _) | [(n & -> & E) | (n & _ & _ & Hs & _)]].
       - discriminate Hn.
       - exists n. split; [reflexivity|]. unfold elem_type_node in E. destruct (nk n); [discriminate E | reflexivity].
       - discriminate Hs. }
     assert (K2 : exists n, x2 = ON n /\ nk n = KIri).
-    { destruct (key_cases inv p i2 x2 _ Hi2 Hx2 Hpt Hk2) as [(cc & dt & _ & _ & Hn & _) | [(n & -> & E) | (n & _ & _ & Hs)]].
+    { destruct (key_cases inv p i2 x2 _ Hi2 Hx2 Hpt Hk2) as [(cc & dt & _ & _ & Hn & _) | [(n & -> & E) | (n & _ & _ & Hs & _)]].
       - discriminate Hn.
       - exists n. split; [reflexivity|]. unfold elem_type_node in E. destruct (nk n); [reflexivity | discriminate E].
       - discriminate Hs. }
@@ -549,4 +551,145 @@ Section Sat.
     assert (H2 : In n2 (nl_nbrs tau G c inv p)) by (apply nl_nbrs_In; exists i2; split; assumption).
     pose proof (sd_kinds _ _ _ SD c inv p n1 n2 Hp H1 H2) as E. congruence.
   Qed.
-End Sat.
+
+  (** ** selected statements are candidates up to comments (no NONLITERAL, no disjunction) *)
+  Lemma like_trans B r d : same_core r d -> like B d -> like B r.
+  Proof. intros H [b [Hb Hc]]. exists b. split; [exact Hb | eapply same_core_trans; eassumption]. Qed.
+
+  Lemma group_nodes_like inv : forall fuel l out,
+    (forall d, In d l -> like (class_dir fa cfg thr counts ce inv) d) ->
+    group_nodes fa cfg fuel cnt l = inl out ->
+    forall r, In r out -> like (class_dir fa cfg thr counts ce inv) r.
+  Proof.
+    induction fuel as [|f IH]; cbn; intros l out Hl H r Hr.
+    - inversion H; subst. apply Hl, Hr.
+    - destruct l as [|a0 rest]; [inversion H; subst; destruct Hr|]. fold (passes cfg a0) in H.
+      destruct (passes cfg a0) eqn:Ep0.
+      + destruct (group_nodes fa cfg f cnt rest) as [rs|e] eqn:E1; [|discriminate]. inversion H; subst.
+        destruct Hr as [<-|Hr]; [apply Hl; left; reflexivity|].
+        eapply IH; [|exact E1|exact Hr]. intros d Hd. apply Hl. right. exact Hd.
+      + match type of H with match ?p with _ => _ end = _ => destruct p as [r0|e] eqn:E0 end; [|discriminate].
+        destruct (group_nodes fa cfg f cnt _) as [rs|e] eqn:E1; [|discriminate]. inversion H; subst.
+        destruct Hr as [<-|Hr].
+        * destruct (filter (mergeable_with a0) rest) as [|b grp] eqn:Eg.
+          -- inversion E0; subst. apply Hl. left. reflexivity.
+          -- set (g0 := a0 :: b :: grp) in *.
+             assert (Hg0 : forall d, In d g0 -> like (class_dir fa cfg thr counts ce inv) d /\ s_prop d = s_prop a0).
+             { intros d [<-|Hd]; [split; [apply Hl; left; reflexivity | reflexivity]|].
+               rewrite <- Eg in Hd. apply filter_In in Hd. destruct Hd as [Hd Hm]. split; [apply Hl; right; exact Hd|].
+               unfold mergeable_with in Hm. apply andb_true_iff in Hm. destruct Hm as [_ M]. apply str_eqb_eq in M. auto. }
+             assert (Hp : s_prop a0 <> tau).
+             { unfold passes in Ep0. apply orb_false_iff in Ep0. destruct Ep0 as [E _]. apply str_eqb_neq in E. exact E. }
+             destruct (merge_group_homog fa cfg cnt g0 r0 Hor (no_both_kinds inv g0 _ Hp Hg0) E0) as [d [Hd Hc]].
+             eapply like_trans; [exact Hc | apply Hg0, Hd].
+        * eapply IH; [|exact E1|exact Hr]. intros d Hd. apply filter_In in Hd. apply Hl. right. apply Hd.
+  Qed.
+
+  Lemma selected_like inv out :
+    select_valid fa cfg cnt (class_dir fa cfg thr counts ce inv) = inl out ->
+    forall v, In v out -> like (class_dir fa cfg thr counts ce inv) v.
+  Proof.
+    unfold select_valid. destruct (class_dir fa cfg thr counts ce inv) as [|a0 L0] eqn:EL.
+    - intros H v Hv. inversion H; subst. destruct Hv.
+    - destruct (group_same fa cfg _ cnt (a0 :: L0)) as [l1|e] eqn:E1; [|discriminate].
+      intros H v Hv. rewrite <- EL in *.
+      eapply group_nodes_like; [|exact H|exact Hv].
+      pose proof (group_same_like _ _ _ _ _ _ E1) as F. rewrite Forall_forall in F. exact F.
+  Qed.
+
+  Lemma class_selected_parts sel :
+    class_selected fa cfg thr counts ce = inl sel ->
+    exists vd vi, select_valid fa cfg cnt (class_dir fa cfg thr counts ce false) = inl vd /\
+                  select_valid fa cfg cnt (class_dir fa cfg thr counts ce true) = inl vi /\ sel = vd ++ vi.
+  Proof.
+    unfold class_selected. fold cnt.
+    destruct (select_valid fa cfg cnt (class_dir fa cfg thr counts ce false)) as [vd|e]; [|discriminate].
+    destruct (select_valid fa cfg cnt (class_dir fa cfg thr counts ce true)) as [vi|e]; [|discriminate].
+    intros H; inversion H; subst. exists vd, vi. repeat split.
+  Qed.
+
+  Lemma selected_dir inv sel out v :
+    class_selected fa cfg thr counts ce = inl sel ->
+    select_valid fa cfg cnt (class_dir fa cfg thr counts ce inv) = inl out -> In v out -> In v sel.
+  Proof.
+    intros Hs Ho Hv. destruct (class_selected_parts sel Hs) as (vd & vi & Hd & Hi & ->).
+    apply in_or_app. destruct inv; [right | left]; congruence.
+  Qed.
+
+  (** ** value expressions and type keys agree on the values of an instance *)
+  Lemma ve_of_ext s b : s_prop s = s_prop b -> s_types s = s_types b -> ve_of tau s = ve_of tau b.
+  Proof. intros H1 H2. unfold ve_of, s_type. rewrite H1, H2. reflexivity. Qed.
+
+  Lemma keys_of_node inv p n : str_eqb p tau = false ->
+    keys_of tau sns G inv p (ON n) =
+    elem_type_node n :: (if inv && nkind_eqb (nk n) KBnode then [] else labels_of tau sns G n).
+  Proof. intros E. unfold keys_of. rewrite E. reflexivity. Qed.
+
+  Lemma keys_of_lit inv p cc dt : str_eqb p tau = false -> keys_of tau sns G inv p (OL cc dt) = [dt].
+  Proof. intros E. unfold keys_of. rewrite E. reflexivity. Qed.
+
+  Lemma mem_str_cons k a l : mem_str k (a :: l) = str_eqb k a || mem_str k l.
+  Proof. reflexivity. Qed.
+
+  Lemma mem_str_one k a : mem_str k [a] = str_eqb k a.
+  Proof. cbn [mem_str]. apply orb_false_r. Qed.
+
+  Lemma rest_not_mem inv n k : is_shape_type k = false ->
+    mem_str k (if inv && nkind_eqb (nk n) KBnode then [] else labels_of tau sns G n) = false.
+  Proof.
+    intros Hk. destruct (inv && nkind_eqb (nk n) KBnode); [reflexivity | apply (label_not_mem tau sns G SD); exact Hk].
+  Qed.
+
+  Lemma match_key inv b i x :
+    In b (class_dir fa cfg thr counts ce inv) -> In i insts -> In x (nbrs G i inv (s_prop b)) ->
+    matches (T0 tau sns G) x (ve_of tau b) = mem_str (s_type b) (keys_of tau sns G inv (s_prop b) x).
+  Proof.
+    intros Hb Hi Hx. pose proof (base_type_not_nl inv b Hb) as Hnl.
+    destruct (base_witness inv b Hb) as (_ & _ & _ & _ & i' & x' & Hi' & Hx' & Hk').
+    set (p := s_prop b) in *. set (k := s_type b) in *.
+    unfold ve_of. fold p k. destruct (str_eqb p tau) eqn:Ep.
+    - apply str_eqb_eq in Ep. rewrite Ep in Hx. destruct (tau_value i x inv Hi Hx) as [-> [cn [-> _]]].
+      rewrite Ep. unfold keys_of. fold tau. rewrite str_eqb_refl. rewrite mem_str_one.
+      unfold matches. cbn [nk nid nkind_eqb andb]. apply str_eqb_sym.
+    - assert (Hpt : p <> tau) by (apply str_eqb_neq; exact Ep).
+      assert (Hlit : forall cc dt, x = OL cc dt -> is_nonliteral_type dt = false).
+      { intros cc dt ->. eapply nbr_literal_datatype; eassumption. }
+      destruct (str_eqb k c_IRI_ELEM_TYPE) eqn:E1.
+      { apply str_eqb_eq in E1. rewrite E1. destruct x as [n|cc dt].
+        - rewrite (keys_of_node _ _ _ Ep), mem_str_cons, (rest_not_mem inv n _ iri_not_shape), orb_false_r.
+          unfold matches, elem_type_node. destruct (nk n); reflexivity.
+        - rewrite (keys_of_lit _ _ _ _ Ep), mem_str_one. unfold matches.
+          pose proof (Hlit cc dt eq_refl) as Hd. unfold is_nonliteral_type in Hd.
+          apply orb_false_iff in Hd. destruct Hd as [Hd _]. apply orb_false_iff in Hd. destruct Hd as [_ Hd].
+          rewrite str_eqb_sym. symmetry. exact Hd. }
+      destruct (str_eqb k c_BNODE_ELEM_TYPE) eqn:E2.
+      { apply str_eqb_eq in E2. rewrite E2. destruct x as [n|cc dt].
+        - rewrite (keys_of_node _ _ _ Ep), mem_str_cons, (rest_not_mem inv n _ bnode_not_shape), orb_false_r.
+          unfold matches, elem_type_node. destruct (nk n); reflexivity.
+        - rewrite (keys_of_lit _ _ _ _ Ep), mem_str_one. unfold matches.
+          pose proof (Hlit cc dt eq_refl) as Hd. unfold is_nonliteral_type in Hd.
+          apply orb_false_iff in Hd. destruct Hd as [_ Hd]. rewrite str_eqb_sym. symmetry. exact Hd. }
+      destruct (str_eqb k c_NONLITERAL_ELEM_TYPE) eqn:E3; [apply str_eqb_eq in E3; contradiction|].
+      destruct (is_shape_type k) eqn:E4.
+      { destruct x as [n|cc dt].
+        - rewrite (keys_of_node _ _ _ Ep), mem_str_cons. unfold matches. rewrite in_typing_labels.
+          assert (He : str_eqb k (elem_type_node n) = false).
+          { apply str_eqb_neq. intros E. rewrite E in E4. rewrite elem_type_shape in E4. discriminate. }
+          rewrite He, orb_false_l.
+          assert (Hnb : inv && nkind_eqb (nk n) KBnode = false).
+          { destruct (key_cases inv p i' x' k Hi' Hx' Ep Hk')
+              as [(cc & dt & _ & _ & Hn & _) | [(n' & _ & E) | (n' & -> & _ & _ & Hb')]].
+            - unfold is_nonliteral_type in Hn. rewrite E4 in Hn. discriminate Hn.
+            - rewrite E in E4. rewrite elem_type_shape in E4. discriminate.
+            - assert (H1 : In n' (nl_nbrs tau G c inv p)) by (apply nl_nbrs_In; exists i'; split; assumption).
+              assert (H2 : In n (nl_nbrs tau G c inv p)) by (apply nl_nbrs_In; exists i; split; assumption).
+              rewrite <- (sd_kinds _ _ _ SD c inv p n' n Hpt H1 H2). exact Hb'. }
+          rewrite Hnb. reflexivity.
+        - rewrite (keys_of_lit _ _ _ _ Ep), mem_str_one. unfold matches.
+          pose proof (Hlit cc dt eq_refl) as Hd.
+          symmetry. apply str_eqb_neq. intros E. subst dt. unfold is_nonliteral_type in Hd. rewrite E4 in Hd. discriminate Hd. }
+      destruct x as [n|cc dt].
+      + rewrite (keys_of_node _ _ _ Ep), mem_str_cons, (rest_not_mem inv n _ E4), orb_false_r. unfold matches.
+        symmetry. unfold elem_type_node. destruct (nk n); assumption.
+      + rewrite (keys_of_lit _ _ _ _ Ep), mem_str_one. unfold matches. apply str_eqb_sym.
+  Qed.
